@@ -710,7 +710,14 @@ class SInt(object):
         return self
 
     def bit_length(self):
-        raise Unsupported('bit_length of symbolic int')
+        a = abs(self)
+        if not isinstance(a, SInt):
+            return int(a).bit_length()
+        top = max(abs(self.lo), abs(self.hi)).bit_length()
+        r = 0
+        for k in range(1, top + 1):
+            r = ite(a >= (1 << (k - 1)), k, r)
+        return r
 
     def __repr__(self):
         return 'SInt(%s in [%s,%s])' % (z3.simplify(self.t) if self.t.sexpr().__len__() < 200 else '...',
